@@ -2950,8 +2950,20 @@ ythread_create(ABTI_global *p_global, ABTI_local *p_local, ABTI_pool *p_pool,
             ABTI_thread_init_pool(p_global, &p_newthread->thread, p_pool);
         if (ABTI_IS_ERROR_CHECK_ENABLED &&
             ABTU_unlikely(abt_errno != ABT_SUCCESS)) {
-            if (p_keytable)
+            if (p_keytable) {
+                if (p_sched && !(thread_type & (ABTI_THREAD_TYPE_PRIMARY |
+                                                ABTI_THREAD_TYPE_MAIN_SCHED))) {
+                    /* The creation fails, so p_sched still belongs to the
+                     * caller.  Do not let the key table's destructor release
+                     * it.  (Updating an existing entry cannot fail.) */
+                    int ret = ABTI_ktable_set_unsafe(p_global, p_local,
+                                                     &p_keytable,
+                                                     &g_thread_sched_key, NULL);
+                    ABTI_ASSERT(ret == ABT_SUCCESS);
+                    (void)ret;
+                }
                 ABTI_ktable_free(p_global, p_local, p_keytable);
+            }
             ABTI_mem_free_thread(p_global, p_local, &p_newthread->thread);
             return abt_errno;
         }
